@@ -106,6 +106,24 @@ Theorem C15_hex_roundtrip : forall n, unhex (hex n) = Some n.
 Proof. exact unhex_hex. Qed.
 Print Assumptions C15_hex_roundtrip.
 
+(* bodies that have a read() method (files, pipes, sockets, decompressors; wrappers.file_generator):
+   [file_gen reads] are the body pieces when successive read() calls return [reads].  The pieces are exactly
+   what was read before the first empty result - short reads do not end the body - so a source that hands out
+   [data] in reads of any positive sizes ([caps], each at most the chunk size n) is delivered completely;
+   with C15_roundtrip (chunks := file_gen reads) the client then recovers exactly those bytes. *)
+Theorem C15_stream_until_empty_read : forall a b, forallb nonempty a = true -> file_gen (a ++ [] :: b) = a.
+Proof. exact file_gen_until_empty. Qed.
+Print Assumptions C15_stream_until_empty_read.
+
+Theorem C15_stream_all_reads : forall reads, forallb nonempty reads = true -> file_gen reads = reads.
+Proof. exact file_gen_all. Qed.
+Print Assumptions C15_stream_all_reads.
+
+Theorem C15_stream_short_reads_complete : forall fuel n caps data, (0 < n)%nat -> (length data < fuel)%nat ->
+  concat (file_gen (src_reads fuel n caps data)) = data.
+Proof. exact file_gen_src_reads. Qed.
+Print Assumptions C15_stream_short_reads_complete.
+
 (* ---- non-vacuity *)
 Definition ex_stream : cfg :=
   {| v11 := true; head := false; status := 200; reason := str "OK"; close0 := false;
@@ -152,3 +170,16 @@ Example C15_ex_seq_parse :
      (concat (map wire [ex_head; ex_204; ex_file_cl; ex_head; ex_stream; ex_sized_cl; ex_204; ex_10_iter])))
   = Some [[]; []; str "abcde"; []; str "abcde"; str "hello"; []; str "ab"].
 Proof. vm_compute. reflexivity. Qed.
+
+(* a pipe-like source: 10 bytes handed out as 3 + 1 + 4 (chunk size) + 2, then the empty read *)
+Example C15_ex_short_reads :
+  src_reads 20 4 [3; 1; 0; 7]%nat (str "0123456789") = [str "012"; str "3"; str "4567"; str "89"; []]
+  /\ file_gen (src_reads 20 4 [3; 1; 0; 7]%nat (str "0123456789")) = [str "012"; str "3"; str "4567"; str "89"].
+Proof. vm_compute. split; reflexivity. Qed.
+Definition ex_pipe : cfg :=
+  {| v11 := true; head := false; status := 200; reason := str "OK"; close0 := false;
+     pre := []; cookies := []; sized := false; stream := true;
+     chunks := file_gen (src_reads 20 4 [3; 1; 0; 7]%nat (str "0123456789")) |}.
+Example C15_ex_pipe : wf ex_pipe = true /\
+  option_map (fun p => p_body (fst p)) (parse false (wire ex_pipe)) = Some (str "0123456789").
+Proof. vm_compute. split; reflexivity. Qed.
